@@ -44,6 +44,7 @@ func main() {
 			"Phase 2: extprod/*-p61 chains with 8–12 primes and up to 3 auxiliary primes at every (levelQ, levelP) (digit counts on both sides of the lazy-accumulation margins); " +
 			"extlevels/: RLWE ciphertext above the RGSW level, output in place / fresh at either level, result read at the RGSW level; exthistory/: one evaluator through a sequence of products of different levels, #P and decompositions, bit-compared with a fresh evaluator; " +
 			"blindrot/ additionally: equal ring degrees, asymmetric intervals with f(a) ≠ −f(b), non-prefix slot triples, LWE samples with two moduli at both levels, keys generated below the top level, every Evaluate of the subsets pattern replayed on a fresh evaluator and bit-compared; " +
+			"size thresholds: single LWE moduli of 55 and 60 bits (x·2N_BR beyond 64 bits) against N_BR = 32..512, judged by the documented modulus switch computed with big integers; thorough: N_BR up to 2048 and LWE dimension up to 1024 (slot patterns 'spread' = 4·N_LWE grid points spread over the circle, 'mini' = three small slot sets). " +
 			"brgrow/: evaluation with exactly the Galois keys a reference run requested, then with a key set that gained the remaining keys on the same evaluator. " +
 			"distinct_nontrivial counts (path, plaintext class, noise magnitude) resp. (variant, function, inside/outside, exact-hit) classes.",
 		Assumptions: []string{
@@ -88,7 +89,10 @@ func main() {
 				"br-variant=singleP-flip", "br-variant=32bit-flip", "br-variant=noP-flip", "br-variant=multipleP-flip", "br-variant=singleP-pw2=16",
 				"brgrow=singleP", "brgrow=32bit", "brgrow=noP", "brgrow=multipleP", "brgrow=multipleP-lowkeys", "brgrow=multipleP-lwe2@1",
 			}
+			e = append(e, "br-variant=singleP-lwe60", "br-variant=singleP-lwe55", "br-variant=multipleP-lwe60", "br-pair=16,512",
+				"br-slots=spre", "br-slots=mini", "modswitch-product=x*2N>=2^64")
 			if tier == "thorough" {
+				e = append(e, "br-pair=16,1024", "br-pair=16,2048", "br-pair=256,512", "br-pair=1024,1024", "br-pair=1024,2048")
 				e = append(e, "br-interval=[0,2]")
 			}
 			return e
